@@ -50,7 +50,7 @@ theorem peekable_next_spec (c : Co) (s : Peek c.σ) (ys : List Val) (h : Deq c s
       rw [e]
       exact ⟨by simp [peekDen], ys, a2, by simp [peekDen]⟩
 
-theorem peekable_back_spec (c : Co) (s : Peek c.σ) (ys : List Val) (h : Deq c s.inner ys) :
+theorem peekable_back_spec (c : Co) (s : Peek c.σ) (ys : List Val) (hb : c.bidir = true) (h : Deq c s.inner ys) :
     ((peekableCo c).back s).out = (peekDen s ys).getLast? ∧
     ∃ ys', Deq c ((peekableCo c).back s).st.inner ys' ∧
       peekDen ((peekableCo c).back s).st ys' = (peekDen s ys).dropLast := by
@@ -58,20 +58,20 @@ theorem peekable_back_spec (c : Co) (s : Peek c.σ) (ys : List Val) (h : Deq c s
   obtain ⟨inner, front, rear⟩ := s
   cases rear with
   | some v =>
-    refine ⟨by simp [peekableCo, peekDen], ys, ?_, ?_⟩
-    · simpa [peekableCo] using h
-    · simp [peekableCo, peekDen, ← List.append_assoc]
+    refine ⟨by simp [peekableCo, hb, peekDen], ys, ?_, ?_⟩
+    · simpa [peekableCo, hb] using h
+    · simp [peekableCo, hb, peekDen, ← List.append_assoc]
   | none =>
     rcases nil_or_snoc ys with rfl | ⟨ini, l, rfl⟩
     · simp at b1 b2
       have e : (peekableCo c).back ⟨inner, front, none⟩ = ⟨front, ⟨(c.back inner).st, none, none⟩, (c.back inner).ev⟩ := by
-        simp [peekableCo, b1]
+        simp [peekableCo, hb, b1]
       rw [e]
       refine ⟨by cases front <;> simp [peekDen], [], b2, ?_⟩
       cases front <;> simp [peekDen]
     · simp at b1 b2
       have e : (peekableCo c).back ⟨inner, front, none⟩ = ⟨some l, ⟨(c.back inner).st, front, none⟩, (c.back inner).ev⟩ := by
-        simp [peekableCo, b1]
+        simp [peekableCo, hb, b1]
       rw [e]
       refine ⟨by simp [peekDen], ini, b2, ?_⟩
       simp [peekDen, ← List.append_assoc]
@@ -87,13 +87,13 @@ theorem dropLast_snoc_last (xs : List Val) (v : Val) (h : xs.getLast? = some v) 
   · simp at h; simp [h]
 
 /-- one operation of a `Peekable` over a double-ended input answers like the ideal sequence -/
-theorem peekStep_spec (c : Co) (op : PeekOp) (s : Peek c.σ) (ys : List Val) (h : Deq c s.inner ys) :
+theorem peekStep_spec (c : Co) (op : PeekOp) (s : Peek c.σ) (ys : List Val) (hb : c.bidir = true) (h : Deq c s.inner ys) :
     (peekStep c op s).out = peekOut op (peekDen s ys) ∧
     ∃ ys', Deq c (peekStep c op s).st.inner ys' ∧
       peekDen (peekStep c op s).st ys' = peekRest op (peekDen s ys) := by
   cases op with
   | next => exact peekable_next_spec c s ys h
-  | back => exact peekable_back_spec c s ys h
+  | back => exact peekable_back_spec c s ys hb h
   | peek =>
     have ⟨n1, ys', n2, n3⟩ := peekable_next_spec c s ys h
     cases hf : s.front with
@@ -132,7 +132,7 @@ theorem peekStep_spec (c : Co) (op : PeekOp) (s : Peek c.σ) (ys : List Val) (h 
         rw [this, n3]
         exact head_cons_tail _ v n1.symm
   | peekBack =>
-    have ⟨n1, ys', n2, n3⟩ := peekable_back_spec c s ys h
+    have ⟨n1, ys', n2, n3⟩ := peekable_back_spec c s ys hb h
     cases hf : s.rear with
     | some v =>
       have e : peekStep c .peekBack s = ⟨some v, s, []⟩ := by simp [peekStep, peekRear, hf]
@@ -155,7 +155,7 @@ theorem peekStep_spec (c : Co) (op : PeekOp) (s : Peek c.σ) (ys : List Val) (h 
         have hrear : ((peekableCo c).back s).st.rear = none := by
           obtain ⟨inner, front, rear⟩ := s
           simp at hf; subst hf
-          simp only [peekableCo]
+          simp only [peekableCo, hb, if_true]
           cases (c.back inner).out <;> rfl
         have e : peekStep c .peekBack s =
             ⟨some v, { ((peekableCo c).back s).st with rear := some v }, ((peekableCo c).back s).ev⟩ := by
@@ -174,15 +174,15 @@ def idealPeek : List PeekOp → List Val → List (Option Val)
   | [], _ => []
   | op :: ops, xs => peekOut op xs :: idealPeek ops (peekRest op xs)
 
-theorem runPeekOps_spec (c : Co) (endM : Val) : ∀ (ops : List PeekOp) (s : Peek c.σ) (ys : List Val),
-    Deq c s.inner ys →
+theorem runPeekOps_spec (c : Co) (endM : Val) (hb : c.bidir = true) :
+    ∀ (ops : List PeekOp) (s : Peek c.σ) (ys : List Val), Deq c s.inner ys →
     (runPeekOps c endM ops s).1 = (idealPeek ops (peekDen s ys)).map (fun o => o.getD endM) := by
   intro ops
   induction ops with
   | nil => intro s ys _; rfl
   | cons op ops ih =>
     intro s ys h
-    have ⟨p1, ys', p2, p3⟩ := peekStep_spec c op s ys h
+    have ⟨p1, ys', p2, p3⟩ := peekStep_spec c op s ys hb h
     have := ih (peekStep c op s).st ys' p2
     simp only [runPeekOps, idealPeek, List.map_cons]
     rw [this, p1, p3]
@@ -192,5 +192,137 @@ theorem specPeekOps_eq (ops : List PeekOp) (xs : List Val) :
   induction ops generalizing xs with
   | nil => rfl
   | cons op ops ih => cases op <;> simp [specPeekOps, idealPeek, peekOut, peekRest, ih]
+
+/-! ### `Peekable` over a forward-only input (code as of /repo 582d021) -/
+
+/-- output of one operation on the ideal forward-only sequence: there is no back end -/
+def peekOutF : PeekOp → List Val → Option Val
+  | .next, xs | .peek, xs => xs.head?
+  | .back, _ | .peekBack, _ => none
+
+def peekRestF : PeekOp → List Val → List Val
+  | .next, xs => xs.tail
+  | .back, xs | .peek, xs | .peekBack, xs => xs
+
+/-- one operation over a forward-only input: the state keeps denoting `front ++ (inner's sequence)`,
+the back cache stays empty, `next_back` / `peek_back` answer `None` and change nothing -/
+theorem peekStep_fwd_only (c : Co) (op : PeekOp) (s : Peek c.σ) (ys : List Val)
+    (hb : c.bidir = false) (hr : s.rear = none) (h : Fwd c s.inner ys) :
+    (peekStep c op s).out = peekOutF op (s.front.toList ++ ys) ∧ (peekStep c op s).st.rear = none ∧
+    ∃ ys', Fwd c (peekStep c op s).st.inner ys' ∧
+      (peekStep c op s).st.front.toList ++ ys' = peekRestF op (s.front.toList ++ ys) := by
+  obtain ⟨inner, front, rear⟩ := s
+  simp at hr; subst hr
+  have hnext : front = none →
+      ((peekableCo c).next ⟨inner, front, none⟩).out = ys.head? ∧
+      ((peekableCo c).next ⟨inner, front, none⟩).st.rear = none ∧
+      ((peekableCo c).next ⟨inner, front, none⟩).st.front = none ∧
+      Fwd c ((peekableCo c).next ⟨inner, front, none⟩).st.inner ys.tail := by
+    intro hf; subst hf
+    cases ys with
+    | nil =>
+      have ⟨f1, f2⟩ := fwd_nil.mp h
+      have e : (peekableCo c).next ⟨inner, none, none⟩ = ⟨none, ⟨(c.next inner).st, none, none⟩, (c.next inner).ev⟩ := by
+        simp [peekableCo, f1]
+      rw [e]; exact ⟨rfl, rfl, rfl, f2⟩
+    | cons y ys =>
+      have ⟨f1, f2⟩ := fwd_cons.mp h
+      have e : (peekableCo c).next ⟨inner, none, none⟩ = ⟨some y, ⟨(c.next inner).st, none, none⟩, (c.next inner).ev⟩ := by
+        simp [peekableCo, f1]
+      rw [e]; exact ⟨rfl, rfl, rfl, f2⟩
+  have hback : (peekableCo c).back ⟨inner, front, none⟩ = ⟨none, ⟨inner, front, none⟩, []⟩ := by
+    simp [peekableCo, hb]
+  cases op with
+  | next =>
+    cases front with
+    | some v =>
+      have e : peekStep c .next ⟨inner, some v, none⟩ = ⟨some v, ⟨inner, none, none⟩, []⟩ := by
+        simp [peekStep, peekableCo]
+      rw [e]; exact ⟨by simp [peekOutF], rfl, ys, h, by simp [peekRestF]⟩
+    | none =>
+      have ⟨n1, n2, n3, n4⟩ := hnext rfl
+      show ((peekableCo c).next _).out = _ ∧ _
+      refine ⟨by simpa [peekOutF] using n1, n2, ys.tail, n4, ?_⟩
+      show ((peekableCo c).next _).st.front.toList ++ ys.tail = _
+      rw [n3]; simp [peekRestF]
+  | back =>
+    have e : peekStep c .back ⟨inner, front, none⟩ = ⟨none, ⟨inner, front, none⟩, []⟩ := hback
+    rw [e]; exact ⟨rfl, rfl, ys, h, rfl⟩
+  | peek =>
+    cases front with
+    | some v =>
+      have e : peekStep c .peek ⟨inner, some v, none⟩ = ⟨some v, ⟨inner, some v, none⟩, []⟩ := by
+        simp [peekStep, peekFront]
+      rw [e]; exact ⟨by simp [peekOutF], rfl, ys, h, rfl⟩
+    | none =>
+      have ⟨n1, n2, n3, n4⟩ := hnext rfl
+      cases ho : ((peekableCo c).next ⟨inner, none, none⟩).out with
+      | none =>
+        have e : peekStep c .peek ⟨inner, none, none⟩ =
+            ⟨none, ((peekableCo c).next ⟨inner, none, none⟩).st, ((peekableCo c).next ⟨inner, none, none⟩).ev⟩ := by
+          simp [peekStep, peekFront, ho]
+        rw [e]
+        rw [ho] at n1
+        have hy : ys = [] := by
+          cases ys with
+          | nil => rfl
+          | cons y ys => simp at n1
+        subst hy
+        refine ⟨by simp [peekOutF], n2, [], n4, ?_⟩
+        show ((peekableCo c).next _).st.front.toList ++ [] = _
+        rw [n3]; rfl
+      | some v =>
+        have e : peekStep c .peek ⟨inner, none, none⟩ =
+            ⟨some v, { ((peekableCo c).next ⟨inner, none, none⟩).st with front := some v },
+             ((peekableCo c).next ⟨inner, none, none⟩).ev⟩ := by
+          simp [peekStep, peekFront, ho]
+        rw [e]
+        rw [ho] at n1
+        refine ⟨by simp [peekOutF, ← n1], n2, ys.tail, n4, ?_⟩
+        show v :: ys.tail = _
+        simp only [peekRestF, Option.toList, List.nil_append]
+        exact head_cons_tail ys v n1.symm
+  | peekBack =>
+    have e : peekStep c .peekBack ⟨inner, front, none⟩ = ⟨none, ⟨inner, front, none⟩, []⟩ := by
+      simp [peekStep, peekRear, hback]
+    rw [e]; exact ⟨rfl, rfl, ys, h, rfl⟩
+
+def idealPeekF : List PeekOp → List Val → List (Option Val)
+  | [], _ => []
+  | op :: ops, xs => peekOutF op xs :: idealPeekF ops (peekRestF op xs)
+
+theorem runPeekOps_fwd_only (c : Co) (endM : Val) (hb : c.bidir = false) :
+    ∀ (ops : List PeekOp) (s : Peek c.σ) (ys : List Val), s.rear = none → Fwd c s.inner ys →
+    (runPeekOps c endM ops s).1 = (idealPeekF ops (s.front.toList ++ ys)).map (fun o => o.getD endM) := by
+  intro ops
+  induction ops with
+  | nil => intro s ys _ _; rfl
+  | cons op ops ih =>
+    intro s ys hr h
+    have ⟨p1, p2, ys', p3, p4⟩ := peekStep_fwd_only c op s ys hb hr h
+    have := ih (peekStep c op s).st ys' p2 p3
+    simp only [runPeekOps, idealPeekF, List.map_cons]
+    rw [this, p1, p4]
+
+theorem specPeekOpsF_eq (ops : List PeekOp) (xs : List Val) :
+    specPeekOpsF ops xs = (idealPeekF ops xs).map (fun o => o.getD endMarker) := by
+  induction ops generalizing xs with
+  | nil => rfl
+  | cons op ops ih => cases op <;> simp [specPeekOpsF, idealPeekF, peekOutF, peekRestF, ih]
+
+/-- operations other than `next` leave the ideal forward-only sequence as it is -/
+theorem specPeekOpsF_append (ops rest : List PeekOp) (xs : List Val)
+    (hn : ∀ o ∈ ops, o ≠ PeekOp.next) :
+    specPeekOpsF (ops ++ rest) xs = specPeekOpsF ops xs ++ specPeekOpsF rest xs := by
+  induction ops with
+  | nil => rfl
+  | cons op ops ih =>
+    have h1 : op ≠ PeekOp.next := hn op (by simp)
+    have h2 := ih (fun o ho => hn o (by simp [ho]))
+    cases op with
+    | next => exact absurd rfl h1
+    | back => simp [specPeekOpsF, h2]
+    | peek => simp [specPeekOpsF, h2]
+    | peekBack => simp [specPeekOpsF, h2]
 
 end KotoVerif.Iter
